@@ -21,7 +21,7 @@ ASSUMPTIONS = [
     "a library name absent from the golden tables is counted as unverified, not as a violation",
 ]
 REQUIRED = ["number_renders_name", "number_renders_digits", "name_ok", "proto_name_ok",
-            "vocab_ace_ok"]
+            "vocab_ace_ok", "platform_switch_ok"]
 PLATFORMS = ("asa", "ios", "nxos")
 VERSIONS = ("", "15.2(4)M", "16.9.6", "9.3(8)")
 CHUNK = 8192
@@ -37,7 +37,7 @@ def describe(tier, seed):
 
 
 def units(tier, seed):
-    out = [dict(kind="tables"), dict(kind="protocols")]
+    out = [dict(kind="tables"), dict(kind="protocols"), dict(kind="platform_switch")]
     for plat in PLATFORMS:
         for ver in VERSIONS:
             for proto in ("tcp", "udp"):
@@ -59,6 +59,8 @@ def run_unit(unit, ctx):
         _protocols(ctx)
     elif kind == "tables":
         _tables(ctx)
+    elif kind == "platform_switch":
+        _platform_switch(ctx)
 
 
 def replay(case, ctx):
@@ -70,6 +72,8 @@ def replay(case, ctx):
         _one_name(case["platform"], case["version"], case["proto"], case["name"], ctx)
     elif kind == "protocol":
         _protocols(ctx)
+    elif kind == "platform_switch":
+        _platform_switch(ctx)
     else:
         _tables(ctx)
 
@@ -291,6 +295,53 @@ def _protocols(ctx):
                         ctx.viol("Ace:proto_switch_changes_number", case, ace.protocol.number,
                                  golden.PROTO.get(name))
     ctx.sample("protocol", dict(platform="ios", number=6))
+
+
+def _platform_switch(ctx):
+    """One Port object built (by name or by number, rendered once) on platform A, then switched to
+    platform B: the number is unchanged and the new text is a spelling of platform B."""
+    from cisco_acl import Port
+    from cisco_acl.port_name import PortName
+
+    for proto in ("tcp", "udp"):
+        numbers = sorted(set(golden.PORTS[proto].values()) | {1, 4000, 65535})
+        for a in PLATFORMS:
+            names_a = PortName(protocol=proto, platform=a).names()
+            for b in PLATFORMS:
+                if a == b:
+                    continue
+                table_b = PortName(protocol=proto, platform=b).names()
+                inputs = [(str(n), n) for n in numbers] + [(nm, nr) for nm, nr in sorted(names_a.items())]
+                for text, nr in inputs:
+                    for pre_render in (True, False):
+                        ctx.ev()
+                        ctx.nt_count()
+                        case = dict(kind="platform_switch", proto=proto, a=a, b=b, text=text,
+                                    pre_render=pre_render)
+                        try:
+                            port = Port(f"eq {text}", platform=a, protocol=proto)
+                            if pre_render:
+                                _ = port.line
+                            port.platform = b
+                            line = port.line
+                        except (ValueError, TypeError) as ex:
+                            ctx.viol("Port.platform:switch_refused", case, repr(ex), "converted")
+                            continue
+                        tok = line.split()[-1] if line else ""
+                        if port.ports != [nr]:
+                            ctx.viol("Port.platform:number_changed", case, port.ports[:5], [nr])
+                        elif not (tok == str(nr) or table_b.get(tok) == nr):
+                            ctx.viol("Port.platform:text_is_no_spelling_of_the_new_platform", case, line,
+                                     f"eq {nr} or a {b} name of {nr}")
+                        else:
+                            try:
+                                if Port(line, platform=b, protocol=proto).ports != [nr]:
+                                    raise ValueError("other number")
+                                ctx.out("platform_switch_ok")
+                            except (ValueError, TypeError) as ex:
+                                ctx.viol("Port.platform:new_text_rejected_on_new_platform", case,
+                                         dict(line=line, error=repr(ex)), "accepted")
+    ctx.sample("platform_switch", "Port('eq cmd', platform='ios').platform = 'asa'")
 
 
 def _tables(ctx):
